@@ -994,8 +994,10 @@ static int write_char(void *context, cif_value_tp *char_value, int allow_text) {
                         result = CIF_DISALLOWED_VALUE;
                     } else {
                         /* write as a text block, possibly with line-folding and/or prefixing  */
+                        /* when the text has to be prefixed, the prefix takes up part of every line */
+                        int line_room = LINE_LENGTH(context) - (analysis.contains_text_delim ? PREFIX_LENGTH : 0);
                         int fold = ((analysis.length_first >= LINE_LENGTH(context))
-                                        || (analysis.length_max > LINE_LENGTH(context))
+                                        || (analysis.length_max > line_room)
                                         || analysis.has_reserved_start
                                         || (analysis.max_semi_run >= (LINE_LENGTH(context) - 1)));
 
